@@ -18,9 +18,10 @@ for p in props:
         evidence_file="/verif/evidence/%s.json" % pid,
         replay_cmd_template="./check %s --replay {path}" % pid,
         engine="coq-model+correspondence",
-        level_claimed=dict(category="proof", text=e["text"], design_ref=e.get("design_ref", "DESIGN.md section 6, " + pid)),
-        level_note=e["note"],
-        technique=e["technique"]))
+        level_claimed=dict(category="proof", text=e["text"] + ((" " + R.TIE[pid]) if pid in R.TIE else ""),
+                           design_ref=e.get("design_ref", "DESIGN.md section 6, " + pid) + ("; section 0.9" if pid in R.TIE else "")),
+        level_note=e["note"] + (R.TIE_NOTE if pid in R.TIE else ""),
+        technique=e["technique"] + (R.TIE_TECHNIQUE if pid in R.TIE else "")))
 m = dict(version=1, setup_cmd="./setup.sh",
          hooks=dict(guard="PHYST_VERIF", enable="none needed: no guarded instrumentation exists in /repo; checks run /repo/src directly via PYTHONPATH",
                     baseline_off_cmd="cd /repo && /venv/bin/python -m pytest -ra -q -p no:cacheprovider --timeout=900 --continue-on-collection-errors",
